@@ -658,9 +658,11 @@ func handleQueryCustom(app *BaseApp, path []string, req abci.RequestQuery) (res 
 		).QueryResult()
 	}
 	// cache wrap the commit-multistore for safety
+	// the context reads a historical copy of the store: mark it so that node-local
+	// LRU caches (shared with block execution) are neither read nor filled
 	ctx := sdk.NewContext(
 		newMS, app.checkState.ctx.BlockHeader(), true, app.logger,
-	).WithBlockStore(app.checkState.ctx.BlockStore()).WithAppVersion(app.appVersion)
+	).WithBlockStore(app.checkState.ctx.BlockStore()).WithAppVersion(app.appVersion).SetPrevCtx(true)
 
 	// Passes the rest of the path as an argument to the querier.
 	//
